@@ -75,7 +75,8 @@ theorem resume_state (fl : Flags) (s : St) (j : Nat) :
     have e : s.resume fl j =
         (match (s.acquireAll j (s.jobs j).deps.length 0).2 with
          | some d =>
-           let s2 := (s.acquireAll j (s.jobs j).deps.length 0).1.check fl j d
+           let s1 := (s.acquireAll j (s.jobs j).deps.length 0).1
+           let s2 := (if fl.abortReleases then s1.releaseAll j (s1.jobs j).held else s1).check fl j d
            s2.put j { (s2.jobs j) with pc := .lockExitAbort } [] [(.lockExit, j)]
          | none =>
            let s1 := (s.acquireAll j (s.jobs j).deps.length 0).1
@@ -90,9 +91,14 @@ theorem resume_state (fl : Flags) (s : St) (j : Nat) :
     cases fa with
     | some d =>
       simp only [jobs_put, if_true]
-      have hb2 := check_bg fl s1 j d
+      have hbr : Bg s1 (if fl.abortReleases then s1.releaseAll j (s1.jobs j).held else s1) := by
+        split
+        · exact releaseAll_bg j _ s1
+        · exact Bg.refl s1
+      have hl3 := (hbr.fields j).2.2.2.2.2.1
+      have hb2 := check_bg fl (if fl.abortReleases then s1.releaseAll j (s1.jobs j).held else s1) j d
       have hl2 := (hb2.fields j).2.2.2.2.2.1
-      refine ⟨fun h => Or.inl (hb.done j (hb2.done j h)), by simp, by simp, by simp, Or.inl (by rw [hl2, hl1])⟩
+      refine ⟨fun h => Or.inl (hb.done j (hbr.done j (hb2.done j h))), by simp, by simp, by simp, Or.inl (by rw [hl2, hl3, hl1])⟩
     | none => simp [jobs_put, hl1]
   | lockExitAbort =>
     have hb := releaseAll_bg j (s.jobs j).held s
@@ -195,7 +201,7 @@ theorem crash_le (d : Disk) : DiskLe d d.crash := by
 theorem world_onLaunch_le (d : Disk) (j : Nat) (jb : Job) : DiskLe d (world.onLaunch d j jb) := by
   simp only [world]
   refine DiskLe.trans (spawn_le d jb.ident jb.code) ?_
-  refine DiskLe.trans (setDir_le _ jb.ident { ((d.spawn jb.ident jb.code).dir jb.ident) with pid := some d.np } rfl) ?_
+  refine DiskLe.trans (setDir_le _ jb.ident { ((d.spawn jb.ident jb.code).dir jb.ident) with pid := some d.np, script := .ready } rfl) ?_
   exact ⟨fun _ h => h, Nat.le_refl _, fun _ _ => rfl⟩
 
 theorem world_gate_le (d : Disk) (k : TK) (j : Nat) (jb : Job) (ad : Bool) (c : Option Nat) (d' : Disk)
@@ -724,6 +730,11 @@ theorem wreach_link {fl : Flags} {totals : List Nat} {done0 : Nat → Bool} {w :
     | proc p rm => exact link_disk h.2 _ (procStep_le _ p rm) (procStep_procOf _ p rm)
     | crash => exact link_init _ _
     | crashAfterSpawn j =>
+      simp only [W.apply]
+      split
+      · exact link_init _ _
+      · exact h.2
+    | crashInPrepare j st =>
       simp only [W.apply]
       split
       · exact link_init _ _
